@@ -631,10 +631,13 @@ impl<'a> UserModel<'a> {
         // Only record the operation (and touch the selection) once it succeeded
         self.model.delete_sheet(sheet)?;
 
-        // If we are deleting the last sheet we need to change the selected sheet
-        if sheet == sheet_count - 1 && sheet_count > 1 {
+        // Keep the selection on an existing sheet: the sheets after the deleted one
+        // moved one position down, and the last index no longer exists
+        if sheet_count > 1 {
             if let Some(view) = self.model.workbook.views.get_mut(&self.model.view_id) {
-                view.sheet = sheet_count - 2;
+                if view.sheet > sheet || view.sheet >= sheet_count - 1 {
+                    view.sheet = view.sheet.saturating_sub(1);
+                }
             };
         }
 
